@@ -636,6 +636,12 @@ def write_replay(path, prop, case, impl_lines, model_lines, reasons, note=''):
     with open(path, 'w') as f:
         f.write('# property %s\n# %s\n' % (prop, note))
         f.write('# replay: %s <this file>   (harness syntax below; lines starting with # are comments)\n' % HARNESS_BIN)
+        try:
+            import json as _json
+            meta = {k: v for k, v in case.meta.items() if k != 'model_ops' and isinstance(v, (int, float, str, bool, type(None)))}
+            f.write('#meta %s\n' % _json.dumps(meta))
+        except Exception:
+            pass
         f.write('case %s\n' % case.cid)
         for o in case.ops:
             f.write(o + '\n')
